@@ -111,7 +111,12 @@ type c04Unit struct {
 	commit int // index into env.commits, -1 if the unit did not commit
 }
 
-func execC04(t *testing.T, plan *Plan) *Outcome {
+func execC04(t *testing.T, plan *Plan) *Outcome { return execConc(t, plan, "C04", nil, nil) }
+
+// execConc runs concurrent client scripts and checks the history against the
+// commit-order replay oracle. extraTasks may add tasks (snapshot takers);
+// finalCheck runs after the history check.
+func execConc(t *testing.T, plan *Plan, prop string, setup func(e *Env, actors []*actor), finalCheck func(e *Env, actors []*actor)) *Outcome {
 	return runPlan(t, plan, func(e *Env) {
 		e.monitors()
 		sim := e.sim
@@ -137,6 +142,9 @@ func execC04(t *testing.T, plan *Plan) *Outcome {
 				ops := tp.Ops
 				a.t = sim.Go(tp.Name, false, func(task *simrt.Task) { cur[task] = a; a.run(ops) })
 			}
+			if setup != nil {
+				setup(e, actors)
+			}
 		})
 		sim.Run()
 		if !ok || e.out.Harness != "" {
@@ -147,7 +155,10 @@ func execC04(t *testing.T, plan *Plan) *Outcome {
 			e.violate(violation("C16", "deadlock", "stall", fmt.Sprintf("concurrent run did not finish: panic=%v %s %s", sim.PanicVal, sim.Deadlock, e.stallReport())))
 			return
 		}
-		c04Check(e, actors)
+		c04Check(e, prop, actors)
+		if finalCheck != nil && !e.failed() {
+			finalCheck(e, actors)
+		}
 	})
 }
 
@@ -163,7 +174,7 @@ func topLevel(a *actor) []*CallRec {
 	return out
 }
 
-func c04Check(e *Env, actors []*actor) {
+func c04Check(e *Env, prop string, actors []*actor) {
 	// map commits to units
 	byCommit := map[int]*CallRec{}
 	var units []*CallRec
@@ -172,13 +183,13 @@ func c04Check(e *Env, actors []*actor) {
 			units = append(units, c)
 			for _, k := range c.Commits {
 				if prev, dup := byCommit[k]; dup && prev != c {
-					e.violate(violation("C04", "commit-attribution", "", "one commit attributed to two calls"))
+					e.violate(violation(prop, "commit-attribution", "", "one commit attributed to two calls"))
 					return
 				}
 				byCommit[k] = c
 			}
 			if len(c.Commits) > 1 {
-				e.violate(violation("C04", "call-committed-twice", c.Op.K, fmt.Sprintf("%s produced %d commits", opStr(c.Op), len(c.Commits))))
+				e.violate(violation(prop, "call-committed-twice", c.Op.K, fmt.Sprintf("%s produced %d commits", opStr(c.Op), len(c.Commits))))
 				return
 			}
 		}
@@ -191,22 +202,22 @@ func c04Check(e *Env, actors []*actor) {
 		if u == nil {
 			// a commit by the engine's own expiry task: nothing may change in this workload
 			if d := compareState(st, rec.Cat); d != "" {
-				e.violate(violation("C04", "foreign-commit-changed-state", "", fmt.Sprintf("commit %d by %s changed the data: %s", k, rec.Task.Name, d)))
+				e.violate(violation(prop, "foreign-commit-changed-state", "", fmt.Sprintf("commit %d by %s changed the data: %s", k, rec.Task.Name, d)))
 				return
 			}
 			snaps = append(snaps, st.Clone())
 			continue
 		}
 		if !(u.InvCom <= k && k < u.RetCom) {
-			e.violate(violation("C04", "real-time-order", "", fmt.Sprintf("commit %d does not lie inside the call that made it (%d..%d)", k, u.InvCom, u.RetCom)))
+			e.violate(violation(prop, "real-time-order", "", fmt.Sprintf("commit %d does not lie inside the call that made it (%d..%d)", k, u.InvCom, u.RetCom)))
 			return
 		}
 		if d := c04Apply(st, u, true); d != "" {
-			e.violate(violation("C04", "serial-replay-result", u.Op.K, fmt.Sprintf("replaying the committed calls in change-log order, %s returns something else than it returned in the run: %s", opStr(u.Op), d)))
+			e.violate(violation(prop, "serial-replay-result", u.Op.K, fmt.Sprintf("replaying the committed calls in change-log order, %s returns something else than it returned in the run: %s", opStr(u.Op), d)))
 			return
 		}
 		if d := compareState(st, rec.Cat); d != "" {
-			e.violate(violation("C04", "serial-replay-state", u.Op.K, fmt.Sprintf("after replaying commit %d (%s by %s) serially: %s", k, opStr(u.Op), rec.Task.Name, d)))
+			e.violate(violation(prop, "serial-replay-state", u.Op.K, fmt.Sprintf("after replaying commit %d (%s by %s) serially: %s", k, opStr(u.Op), rec.Task.Name, d)))
 			return
 		}
 		snaps = append(snaps, st.Clone())
@@ -233,7 +244,7 @@ func c04Check(e *Env, actors []*actor) {
 			last = d
 		}
 		if okAt < 0 {
-			e.violate(violation("C04", "read-not-from-committed-prefix", u.Op.K, fmt.Sprintf("%s (no commit of its own) returned a result that no committed state current during the call (%d..%d commits) explains: %s", opStr(u.Op), u.InvCom, u.RetCom, last)))
+			e.violate(violation(prop, "read-not-from-committed-prefix", u.Op.K, fmt.Sprintf("%s (no commit of its own) returned a result that no committed state current during the call (%d..%d commits) explains: %s", opStr(u.Op), u.InvCom, u.RetCom, last)))
 			return
 		}
 		if u.RetCom > u.InvCom {
@@ -268,12 +279,12 @@ func c04Check(e *Env, actors []*actor) {
 			}
 		}
 		if clean && sum != 0 {
-			e.violate(violation("C04", "conservation", "", fmt.Sprintf("transfers conserve the sum of balances, the final sum is %d", sum)))
+			e.violate(violation(prop, "conservation", "", fmt.Sprintf("transfers conserve the sum of balances, the final sum is %d", sum)))
 			return
 		}
 	}
 	// oracle 2: independent linearizability check of short histories
-	c04Porcupine(e, units)
+	c04Porcupine(e, prop, units)
 	hb := ""
 	for k := range e.commits {
 		if u := byCommit[k]; u != nil {
@@ -305,7 +316,7 @@ func c04Apply(st *model.State, u *CallRec, committed bool) string {
 
 type c04In struct{ u *CallRec }
 
-func c04Porcupine(e *Env, units []*CallRec) {
+func c04Porcupine(e *Env, prop string, units []*CallRec) {
 	var ops []porcupine.Operation
 	for _, u := range units {
 		cls := classifyErr(u.Err)
@@ -336,7 +347,7 @@ func c04Porcupine(e *Env, units []*CallRec) {
 	switch porcupine.CheckOperationsTimeout(m, ops, 20*time.Second) {
 	case porcupine.Illegal:
 		e.probe("porcupine-illegal")
-		e.violate(violation("C04", "not-linearizable", "", fmt.Sprintf("the invoke/return history of %d calls admits no sequential order that explains all results (porcupine)", len(ops))))
+		e.violate(violation(prop, "not-linearizable", "", fmt.Sprintf("the invoke/return history of %d calls admits no sequential order that explains all results (porcupine)", len(ops))))
 	case porcupine.Unknown:
 		e.probe("porcupine-unknown")
 	default:
